@@ -153,6 +153,8 @@ def gen_formulas():
                     continue
                 out.append({"resp": "y", "icpt": True, "common": [["x"]], "group": [{"eff": eff, "fac": fac, "zero": zero}]})
     out.append({"resp": "y", "icpt": True, "common": [], "group": [{"eff": [["1"]], "fac": ["h"], "zero": False}, {"eff": [["x"]], "fac": ["g"], "zero": True}]})
+    out.append({"resp": "y", "icpt": True, "common": [["x"]], "group": [{"eff": [["1"]], "fac": ["g", "h"], "zero": False}, {"eff": [["x"]], "fac": ["h", "g"], "zero": True}]})
+    out.append({"resp": "y", "icpt": True, "common": [["x"]], "group": [{"eff": [["f"]], "fac": ["h", "g"], "zero": True}, {"eff": [["x"]], "fac": ["g", "h"], "zero": False}]})
     for resp in ("yc", "yc[v]", "yc['u']", "y"):
         out.append({"resp": resp, "icpt": True, "common": [["x"], ["f"]], "group": []})
         out.append({"resp": resp, "icpt": False, "common": [["g", "x"]], "group": [{"eff": [["1"]], "fac": ["h"], "zero": False}]})
@@ -286,6 +288,18 @@ def verify(dm, c, df, order):
         else:
             for name, t in dm.group.terms.items():
                 check_labels(t.labels, dm.group[name], df, order, names, f"group term {name}", problems, group=True)
+    # the matrices returned by evaluate_new_data for the same frame carry the same labels
+    try:
+        if dm.common is not None and c["resp"] != "__none__":
+            c2 = dm.common.evaluate_new_data(df)
+            for tname, t in dm.common.terms.items():
+                check_labels(list(t.labels), c2[tname], df, order, names, f"re-evaluated common term {tname}", problems)
+        if dm.group is not None:
+            g2 = dm.group.evaluate_new_data(df)
+            for tname, t in dm.group.terms.items():
+                check_labels(t.labels, g2[tname], df, order, names, f"re-evaluated group term {tname}", problems, group=True)
+    except Exception as e:
+        problems.append(("column-meaning", f"evaluate_new_data on the training frame raised {type(e).__name__}: {e}"))
     rdf = dm.response.as_dataframe()
     R = rdf.to_numpy()
     if c["resp"] == "y":
